@@ -328,6 +328,6 @@ def r18_3(ctx):
 
 
 def run(ctx):
-    r18_1(ctx)
-    r18_2(ctx)
-    r18_3(ctx)
+    ctx.step(r18_1, ctx)
+    ctx.step(r18_2, ctx)
+    ctx.step(r18_3, ctx)
